@@ -100,6 +100,18 @@ class Fn:
             res = [t["t"]]
         elif k == "switch":
             res = list(t["tgts"])
+            # a switch on a literal constant takes one edge (`if false && …`): fold it
+            c = t["o"].get("c") if isinstance(t.get("o"), dict) else None
+            if c is None:
+                # `_5 = const false; switch move _5`
+                pl = t["o"].get("mv") or t["o"].get("cp")
+                if pl is not None and not pl["pr"] and pl["l"] > self.nargs:
+                    ds = self.defs.get(pl["l"], [])
+                    if len(ds) == 1 and ds[0][2] == "assign" and ds[0][3]["k"] == "use" and "c" in ds[0][3]["o"]:
+                        c = ds[0][3]["o"]["c"]
+            if c is not None and "v" in c and isinstance(c["v"], (bool, int)):
+                v = int(c["v"])
+                res = [t["tgts"][t["vals"].index(v)]] if v in t["vals"] else [t["tgts"][-1]]
         elif k in ("call", "assert", "drop"):
             if t.get("t") is not None:
                 res = [t["t"]]
